@@ -538,16 +538,39 @@ func (m *Machine) inputVars() []*sym.Term {
 
 func (m *Machine) assert(cond *sym.Term, id string) {
 	m.asserts = append(m.asserts, AssertEval{id, cond})
-	ob := &Obligation{Harness: m.Harness, ID: id, Path: append([]int(nil), m.trace[:m.pos]...), PCSize: len(m.pc)}
-	m.Obligations = append(m.Obligations, ob)
+	ag := m.Agg[id]
+	if ag == nil {
+		ag = &OblAgg{}
+		m.Agg[id] = ag
+	}
+	ag.Total++
 	if cond.IsTrue() {
-		ob.Verdict = "trivial"
+		ag.Trivial++
 		return
 	}
 	if k, v := m.implied(cond); k && v {
-		ob.Verdict = "trivial"
+		ag.Trivial++
 		return
 	}
+	ob := &Obligation{Harness: m.Harness, ID: id, PCSize: len(m.pc)}
+	defer func() {
+		ag.Ms += ob.Ms
+		switch ob.Verdict {
+		case "discharged":
+			ag.Discharged++
+			if ob.Script != "" && len(m.Obligations) < 400 {
+				m.Obligations = append(m.Obligations, ob)
+			}
+		case "violated":
+			ag.Violated++
+			if ag.Violated <= 50 {
+				ob.Path = append([]int(nil), m.trace[:m.pos]...)
+				m.Obligations = append(m.Obligations, ob)
+			}
+		case "unknown":
+			ag.Unknown++
+		}
+	}()
 	neg := m.ctx.Not(cond)
 	m.Stats.AssertQueries++
 	t0 := m.solver.Time
@@ -568,7 +591,7 @@ func (m *Machine) assert(cond *sym.Term, id string) {
 		r, model = m.solver.CheckModel(m.pc, neg, m.inputVars())
 	}
 	ob.Ms = float64((m.solver.Time - t0).Microseconds()) / 1000
-	if m.WantScripts && len(m.Obligations) < 3000 {
+	if m.WantScripts && len(m.Obligations) < 400 {
 		ob.Script = smt.Script(cs, neg)
 	}
 	switch r {
